@@ -109,10 +109,24 @@ def inst_keys(inst):
     return sorted({a for _, v in inst['substances'] for a, _ in v})
 
 
+def eff(inst):
+    """the sides in the order the function works with: a side passed as a set is sorted"""
+    r = sorted(inst['reactants']) if inst.get('reactants_set') else list(inst['reactants'])
+    p = sorted(inst['products']) if inst.get('products_set') else list(inst['products'])
+    return r, p
+
+
+def reorder(inst, vec):
+    """vec is indexed like inst['reactants'] + inst['products']; result like the effective order"""
+    by = dict(zip(inst['reactants'] + inst['products'], vec))
+    r, p = eff(inst)
+    return [by[k] for k in r + p]
+
+
 def signed_matrix(inst):
     comps = inst_comps(inst)
-    return [[comps[s].get(ck, Fraction(0)) * (-1 if s in inst['reactants'] else 1)
-             for s in inst['reactants'] + inst['products']] for ck in inst_keys(inst)]
+    r, p = eff(inst)
+    return [[comps[s].get(ck, Fraction(0)) * (-1 if s in r else 1) for s in r + p] for ck in inst_keys(inst)]
 
 
 def enum_pos(n, budget):
@@ -134,8 +148,57 @@ def has_smaller(A, x):
 
 
 # ------------------------------------------------------------------ generators
-NAME_POOL = ['Aq', 'B2', 'Cx', 'D', 'Ee', 'F3', 'G', 'Hh', 'J', 'K9', 'L', 'Mm', 'N', 'P4', 'Q', 'Rr', 'S', 'T7', 'U', 'Vv', 'W', 'Xx', 'Y', 'Zz',
-             'a1', 'b', 'c3', 'd']
+# a SMALL pool: the same species names recur from case to case with different compositions, so that the run is also a
+# history of calls in one process (module-level state keyed by species name would be exposed)
+NAME_POOL = ['Aq', 'B2', 'Cx', 'D', 'Ee', 'F3', 'G', 'Hh', 'J']
+
+
+def norm_inst(inst):
+    """how the call is made: via = dict (explicit mapping) | factory (substances=None + substance_factory looking the key up
+    in this call's table) | string (substances='A B P' + substance_factory); a side may be passed as a set"""
+    inst.setdefault('via', 'dict')
+    inst.setdefault('reactants_set', False)
+    inst.setdefault('products_set', False)
+    if inst['via'] == 'string':
+        inst.setdefault('string_keys', [nm for nm, _ in inst['substances']])
+    return inst
+
+
+def decorate(rng, inst, allow_sets=True):
+    inst = dict(inst)
+    inst['via'] = rng.choice(['dict', 'dict', 'factory', 'factory', 'string'])
+    if inst['via'] == 'string':
+        ks = [nm for nm, _ in inst['substances']]
+        rng.shuffle(ks)
+        inst['string_keys'] = ks
+    inst['reactants_set'] = allow_sets and rng.random() < 0.25
+    inst['products_set'] = allow_sets and rng.random() < 0.25
+    return inst
+
+
+def call_fields(inst):
+    norm_inst(inst)
+    d = {k: inst[k] for k in ('reactants', 'products', 'substances', 'via', 'reactants_set', 'products_set')}
+    if inst['via'] == 'string':
+        d['string_keys'] = inst['string_keys']
+    d['inst'] = inst
+    return d
+
+
+def call_args(inst):
+    """positional/keyword arguments of the real call for this instance"""
+    from chempy import Substance
+    norm_inst(inst)
+    table = {nm: {int(a): F(b) for a, b in comp} for nm, comp in inst['substances']}
+    r = set(inst['reactants']) if inst['reactants_set'] else list(inst['reactants'])
+    p = set(inst['products']) if inst['products_set'] else list(inst['products'])
+    kw = {}
+    if inst['via'] == 'dict':
+        kw['substances'] = substances_of(inst)
+    else:
+        kw['substance_factory'] = lambda k: Substance(k, composition=dict(table[k]))
+        kw['substances'] = None if inst['via'] == 'factory' else ' '.join(inst['string_keys'])
+    return r, p, kw
 
 
 def coprime_pos(rng, n, hi):
@@ -185,11 +248,11 @@ def make_inst(rng, names, nr, rows, key_ids):
     return {'reactants': names[:nr], 'products': names[nr:], 'substances': subs}
 
 
-def gen_planted(rng, tier, want_nullity=1):
+def gen_planted(rng, tier, want_nullity=1, names=None, nr=None):
     """instance with a planted positive coprime solution and null space of the wanted dimension"""
     for _ in range(400):
-        n = rng.randint(max(2, want_nullity + 1), 5 if tier == 'quick' else 6)
-        nr = rng.randint(1, n - 1)
+        n = len(names) if names else rng.randint(max(2, want_nullity + 1), 5 if tier == 'quick' else 6)
+        nr = nr if names else rng.randint(1, n - 1)
         x = coprime_pos(rng, n, rng.choice([2, 3, 4, 6]))
         frac = rng.random() < 0.25
         charge = rng.random() < 0.4
@@ -202,7 +265,7 @@ def gen_planted(rng, tier, want_nullity=1):
             continue
         if any(all(r[j] == 0 for r in rows) for j in range(n)):
             continue
-        names = rng.sample(NAME_POOL, n)
+        names = list(names) if names else rng.sample(NAME_POOL, n)
         key_ids = ([0] if charge else []) + rng.sample(range(1, 40), len(rows))
         inst = make_inst(rng, names, nr, rows, key_ids[:len(rows)])
         return inst, x
@@ -333,9 +396,9 @@ class C02(Property):
         self._cache = {}
 
     # ---- real calls (cached: model_case, impl and oracle share them) -----------------------------------
-    def real(self, inst, mode_s, inject=None, dup=False):
+    def real(self, inst, mode_s, inject=None, dup=False, nocache=False):
         key = json.dumps([inst, mode_s, inject, dup], sort_keys=True)
-        if key in self._cache:
+        if key in self._cache and not nocache:
             return self._cache[key]
         import warnings
         mode = MODES[mode_s]
@@ -346,9 +409,8 @@ class C02(Property):
             with Spy(inj, mode) as spy:
                 try:
                     with time_limit():
-                        r, p = spy.cc.balance_stoichiometry(list(inst['reactants']), list(inst['products']),
-                                                            substances=substances_of(inst), underdetermined=mode,
-                                                            allow_duplicates=dup)
+                        ra, pa, kw = call_args(inst)
+                        r, p = spy.cc.balance_stoichiometry(ra, pa, underdetermined=mode, allow_duplicates=dup, **kw)
                     out['res'] = (r, p)
                     out['line'] = 'ok %s %s' % (show_dict(r), show_dict(p))
                 except HarnessTimeout as e:
@@ -396,8 +458,8 @@ class C02(Property):
                 warnings.simplefilter('ignore')
                 try:
                     with time_limit():
-                        r, p = cc.balance_stoichiometry(list(inst['reactants']), list(inst['products']), substances=substances_of(inst),
-                                                        underdetermined=MODES[mode_s], allow_duplicates=True)
+                        ra, pa, kw = call_args(inst)
+                        r, p = cc.balance_stoichiometry(ra, pa, underdetermined=MODES[mode_s], allow_duplicates=True, **kw)
                     out['res'] = (r, p)
                     out['line'] = 'ok %s %s' % (json.dumps(list(r.keys()), separators=(',', ':')), json.dumps(list(p.keys()), separators=(',', ':')))
                 except HarnessTimeout as e:
@@ -416,7 +478,7 @@ class C02(Property):
 
     # ---- generation ----------------------------------------------------------------------------------
     def generate(self, rng, n, tier):
-        cases = []
+        cases, hist = [], []
 
         def add(c):
             cases.append(c)
@@ -458,6 +520,8 @@ class C02(Property):
             it += 1
             if r < 0.40:
                 inst, x = gen_planted(rng, tier)
+                inst = decorate(rng, inst)
+                x = reorder(inst, x)
                 all_modes(inst, 'planted', x=x)
                 add({'op': 'setup', 'kind': 'planted', 'inst': inst})
                 if rng.random() < 0.5:
@@ -468,6 +532,8 @@ class C02(Property):
                 if mv is None:
                     continue
                 inst2, ray = mv
+                inst2 = decorate(rng, inst2)
+                ray = reorder(inst2, ray)
                 all_modes(inst2, 'wrong-side', ray=ray)
                 add({'op': 'setup', 'kind': 'wrong-side', 'inst': inst2})
                 if rng.random() < 0.4:
@@ -477,12 +543,15 @@ class C02(Property):
                 inst2 = add_unbalanced_key(rng, inst)
                 if inst2 is None:
                     continue
+                inst2 = decorate(rng, inst2)
                 all_modes(inst2, 'full-rank')
                 add({'op': 'setup', 'kind': 'full-rank', 'inst': inst2})
             elif r < 0.85:
                 inst, x = gen_planted(rng, tier, want_nullity=2)
                 if sum(x) > 14:
                     continue
+                inst = decorate(rng, inst)
+                x = reorder(inst, x)
                 all_modes(inst, 'multi', x=x)
                 add({'op': 'minimal', 'kind': 'multi', 'inst': inst, 'variant': 'output'})
                 add({'op': 'minimal', 'kind': 'multi', 'inst': inst, 'variant': rng.choice(['double', 'planted'])})
@@ -498,18 +567,36 @@ class C02(Property):
                 p1 = p0 + [d for d in dups if d not in p0]
                 rng.shuffle(r1)
                 rng.shuffle(p1)
-                inst2 = dict(inst, reactants=r1, products=p1)
+                inst2 = decorate(rng, dict(inst, reactants=r1, products=p1), allow_sets=False)
                 add({'op': 'dup', 'kind': 'dup', 'inst': inst2, 'mode': 'None'})
                 if rng.random() < 0.3:
                     add({'op': 'dup', 'kind': 'dup', 'inst': inst2, 'mode': rng.choice(['True', 'False'])})
                 if rng.random() < 0.3:
                     add({'op': 'balance', 'kind': 'dup-disallowed', 'mode': rng.choice(['True', 'False', 'None']), 'inst': inst2})
-        return cases
+            if it % 4 == 0:
+                # a HISTORY: the same species names balanced several times in one process with different compositions /
+                # different call paths; self-contained (replayable in a fresh process), judged call by call
+                inst, x = gen_planted(rng, tier)
+                names, nr0 = inst['reactants'] + inst['products'], len(inst['reactants'])
+                calls = []
+                for j in range(rng.randint(2, 4)):
+                    if j:
+                        inst, x = gen_planted(rng, tier, names=names, nr=nr0)
+                    di = decorate(rng, inst)
+                    if j < 2 or rng.random() < 0.8:     # at least two calls resolve the keys through the factory
+                        di['via'] = rng.choice(['factory', 'string'])
+                        di.pop('string_keys', None)
+                        norm_inst(di)
+                    calls.append({'inst': di, 'x': reorder(di, x), 'mode': rng.choice(['True', 'False', 'None'])})
+                hist.append({'op': 'history', 'kind': 'history', 'calls': calls})
+        return hist + cases      # self-contained histories first: a state-dependent failure then has a replay that reproduces alone
 
     # ---- model side ----------------------------------------------------------------------------------
     def model_case(self, c):
         op = c['op']
         inst = c.get('inst')
+        if inst is not None:
+            norm_inst(inst)
         if op == 'balance':
             mode = c['mode']
             kind = c['kind']
@@ -533,15 +620,15 @@ class C02(Property):
                 else:
                     d = OrderedDict(list(out['res'][0].items()) + list(out['res'][1].items()))
                     ent = []
-                    for k in inst['reactants'] + inst['products']:
+                    for k in sum(eff(inst), []):
                         s = show_entry(d[k])
                         ent.append(s if s in ('sym', 'nan') else rat_json(Fraction(s)))
                     cand = {'symbolic': ent}
-            return dict(inst, op='balance', mode=mode, cand=cand)
+            return dict(call_fields(inst), op='balance', mode=mode, cand=cand)
         if op == 'balance_inj':
-            return dict(inst, op='balance', mode=c['mode'], cand={'numeric': c['cand']}, inject=True)
+            return dict(call_fields(inst), op='balance', mode=c['mode'], cand={'numeric': c['cand']}, inject=True)
         if op == 'setup':
-            return dict(inst, op='setup')
+            return dict(call_fields(inst), op='setup')
         if op == 'minimal':
             out = self.real(inst, 'None')
             if out['res'] is None:
@@ -569,7 +656,9 @@ class C02(Property):
                 x.append(Fraction(int(w.p), int(w.q)))
             if c.get('perturb'):
                 x[0] += 1
-            return dict(inst, op='balanced_inst', x=[rat_json(v) for v in x])
+            return dict(call_fields(inst), op='balanced_inst', x=[rat_json(v) for v in x])
+        if op == 'history':
+            return None
         if op == 'dup':
             out = self.real_dup(inst, c['mode'])
             return {'op': 'dup', 'mode': c['mode'], 'allow': True, 'reactants': inst['reactants'], 'products': inst['products'],
@@ -578,7 +667,7 @@ class C02(Property):
 
     def impl(self, mc):
         op = mc['op']
-        inst = {k: mc[k] for k in ('reactants', 'products', 'substances') if k in mc}
+        inst = mc.get('inst')
         if op == 'balance':
             if mc.get('inject'):
                 return self.real(inst, mc['mode'], inject=mc['cand']['numeric'])['line']
@@ -606,8 +695,15 @@ class C02(Property):
     def oracle(self, c):
         import sympy
         op, kind, inst = c['op'], c.get('kind'), c.get('inst')
+        if op == 'history':
+            for j, call in enumerate(c['calls']):
+                f = self._oracle_balance(dict(call, op='balance', kind='planted'), nocache=True)
+                if f:
+                    return 'call %d of %d in one process: %s' % (j + 1, len(c['calls']), f)
+            return None
         if inst is None:
             return None
+        norm_inst(inst)
         if op in ('setup', 'balance_inj', 'minimal', 'balanced_inst'):
             return None                      # the honest calls on the same instance are judged by its 'balance' cases
         comps = inst_comps(inst)
@@ -621,8 +717,14 @@ class C02(Property):
                 return None if isinstance(e, ValueError) else 'allow_duplicates raised %s: %s' % (exc_name(e), str(e)[:80])
             r, p = out['res']
             return self._judge(inst, 'None', r, p, comps, keys, dup=True)
+        return self._oracle_balance(c)
+
+    def _oracle_balance(self, c, nocache=False):
+        kind, inst = c.get('kind'), norm_inst(c['inst'])
+        comps = inst_comps(inst)
+        keys = inst_keys(inst)
         mode = c['mode']
-        out = self.real(inst, mode)
+        out = self.real(inst, mode, nocache=nocache)
         if out['res'] is None:
             e = out['exc']
             if not isinstance(e, ValueError):
@@ -652,7 +754,8 @@ class C02(Property):
     def _judge(self, inst, mode, r, p, comps, keys, dup=False):
         import sympy
         if not dup:
-            if list(r.keys()) != list(inst['reactants']) or list(p.keys()) != list(inst['products']):
+            er, ep = eff(inst)
+            if list(r.keys()) != er or list(p.keys()) != ep:
                 return 'key sets differ from the species given: %s -> %s' % (list(r.keys()), list(p.keys()))
         else:
             if not set(r) <= set(inst['reactants']) or not set(p) <= set(inst['products']) or set(r) & set(p):
@@ -676,7 +779,8 @@ class C02(Property):
         return None
 
     def classify(self, c):
-        return '%s/%s/%s' % (c.get('op'), c.get('kind'), c.get('mode', '-'))
+        via = (c.get('inst') or {}).get('via', 'dict') if c.get('op') == 'balance' else ''
+        return '%s/%s/%s%s' % (c.get('op'), c.get('kind'), c.get('mode', '-'), '/' + via if via else '')
 
 
 PROPERTY = C02()
